@@ -31,7 +31,7 @@ CONSTANTS Sizes,        \* set of n for Sample(n)
           MaxOps,       \* number of operations after the optional warm-up
           LegN, LegNb,  \* ranges of N and Nb for the stateless interface
           Emit,
-          Strict,       \* TRUE: warm-up only as the first operation, Reinit only without warm-up (reference-chain semantics
+          Strict,       \* TRUE: warm-up only as the first operation, Reinit only on an instance that was not loaded (reference-chain semantics
                         \* of the behaviour replay); FALSE: any order (trace validation of arbitrary recorded runs)
           DevLoadRestarts, DevCallbackBeforeAppend, DevLegacyDropsInitial
 
@@ -110,11 +110,13 @@ FreshLoad ==
                              inst |-> inst + 1, ckpt |-> ckpt])
     /\ UNCHANGED <<iface, warm, ckpt, todo, cur, ret>>
 
-\* reinitialize(): back to the configuration the sampler was constructed with (only explored without warm-up,
-\* where the chain after re-initialisation is again S(1), S(2), ... of the same reference run)
+\* reinitialize(): back to the configuration the sampler was constructed with - also after a warm-up, whose tuning is
+\* discarded with everything else.  From here on the indices refer to the uninterrupted run of a freshly constructed
+\* sampler WITHOUT warm-up (the same run as before if there was no warm-up); a checkpoint saved earlier still refers to
+\* the run it was taken from.  The replay keeps one reference run per case (warm-up / none) and switches accordingly.
 Reinit ==
     /\ iface = "stateful" /\ Idle /\ Ops < MaxOps
-    /\ (Strict => warm = 0 /\ start = 0 /\ k > 0)
+    /\ (Strict => start = 0 /\ k > 0)
     /\ k' = 0 /\ hist' = <<>> /\ cb' = <<>>
     /\ prog' = Append(prog, [op |-> "reinit", n |-> 0, k |-> 0, start |-> 0, hist |-> <<>>, ncb |-> 0,
                              inst |-> inst, ckpt |-> ckpt])
